@@ -14,8 +14,6 @@ from tranpsim.persist import Project, library_seed
 from tranpsim.proc import describe_exception, sim_process
 from tranpsim.session import _make_interactive, _make_runner, annotate_factories
 
-PROMPT = '===============\nPython code here. Type `exit` to quit:\n'
-RESULT_MARK = '===============\nResult:\n---------------\n'
 ALPHABET = ['def', 'class', 'return', 'if', 'else', 'elif', 'for', 'in', 'while', 'lambda', 'import', 'from', 'as', 'pass', 'not', 'and', 'or', 'is', 'None', 'True', 'False',
 	'(', ')', '[', ']', '{', '}', ':', ',', '.', '->', '=', '==', '+', '-', '*', '/', '%', '<', '>', '@', "'s'", '"t"', '1', '2.5', 'x', 'y', 'self', 'int', 'str', 'list', '\t', '\n', '\n\t', ' ', '#c', '\\', ';', '**', '//', '|', '&', '~', '^', '!', '$', '?', '`']
 
@@ -135,6 +133,16 @@ def loop_task(modules: list[str], lines: list[str], cache_enabled: bool | None):
 		annotate_factories()
 		feeder = Feeder(lines)
 		tio.readline = feeder.readline
+		import rogw.tranp.bin.transpile as tmod
+		renders: list[tuple[int, str]] = []
+
+		class RecordingRender(tmod.ErrorRender):
+			"""Observes which errors the loop renders (independent of the wording of prompts and separators)."""
+
+			def __init__(self, e: Exception) -> None:
+				super().__init__(e)
+				renders.append((len(feeder.marks) - 1, f'{type(e).__module__}.{type(e).__qualname__}'))
+		tmod.ErrorRender = RecordingRender
 		app = tasks.make_app(modules, force=True, cache_enabled=cache_enabled)
 		inter = app.run(_make_interactive)
 		escaped = None
@@ -145,8 +153,23 @@ def loop_task(modules: list[str], lines: list[str], cache_enabled: bool | None):
 			escaped['is_tranp_error'] = 'rogw.tranp.errors.Errors.Error' in escaped['mro']
 		out = sys.stdout.getvalue()
 		marks = feeder.marks + [len(out)]
+		prompt = out[:marks[0]] if feeder.marks else ''
 		segments = [out[marks[i]:marks[i + 1]] for i in range(len(marks) - 1)]
-		return {'segments': segments, 'escaped': escaped, 'consumed': feeder.pos, 'exhausted': feeder.exhausted, 'quit_count': out.count('Quit\n'), 'tail': out[-200:]}
+		records = []
+		for k, seg in enumerate(segments):
+			body = seg
+			if prompt and body.endswith(prompt):
+				body = body[:-len(prompt)]
+			if body.endswith('Quit\n'):
+				body = body[:-len('Quit\n')]
+			heads = [cls for n, cls in renders if n == k]
+			if heads:
+				records.append({'status': 'error', 'render_head': heads[-1], 'renders': len(heads)})
+			elif body.strip():
+				records.append({'status': 'ok', 'text': body})
+			else:
+				records.append({'status': 'silent'})
+		return {'records': records, 'escaped': escaped, 'consumed': feeder.pos, 'exhausted': feeder.exhausted, 'quit_count': out.count('Quit\n'), 'tail': out[-200:]}
 	return task
 
 
@@ -183,23 +206,6 @@ def disk_task(module: str, modules: list[str], mode: str, cache_enabled: bool | 
 				r['render_error'] = describe_exception(e2)
 		return r
 	return task
-
-
-def parse_segment(seg: str) -> dict[str, Any]:
-	body = seg
-	if body.endswith(PROMPT):
-		body = body[:-len(PROMPT)]
-	if body.endswith('Quit\n'):
-		body = body[:-len('Quit\n')]
-	if RESULT_MARK in body:
-		return {'status': 'ok', 'text': body.split(RESULT_MARK, 1)[1][:-1] if body.endswith('\n') else body.split(RESULT_MARK, 1)[1]}
-	if body.startswith('Stacktrace:'):
-		# ErrorRender: 'Stacktrace:' + indented trace lines (+ 'via Node:' quotation) + '<module.Class>: (<args>)' (args may span lines)
-		import re
-		heads = re.findall(r'^((?:\w+\.)+\w+): \(', body, flags=re.M)
-		head = heads[-1] if heads else ''
-		return {'status': 'error', 'render_head': head, 'rendered': True}
-	return {'status': 'unknown', 'raw': body[:200]}
 
 
 # ---------------------------------------------------------------------------------------------
@@ -243,8 +249,8 @@ class C07Runner:
 			self.processes += 1
 			if rec['status'] != 'ok':
 				raise HarnessError(f'fresh interactive process failed: {rec}')
-			segs = rec['result']['segments']
-			_VALID_CACHE[key] = parse_segment(segs[0]) if segs else {'status': 'none'}
+			recs = rec['result']['records']
+			_VALID_CACHE[key] = recs[0] if recs else {'status': 'none'}
 			if rec['result']['escaped']:
 				_VALID_CACHE[key] = {'status': 'escaped'}
 		return _VALID_CACHE[key]
@@ -269,7 +275,7 @@ class C07Runner:
 			if rec['status'] != 'ok':
 				raise HarnessError(f'loop process failed: {rec.get("error") or rec}')
 			res = rec['result']
-			parsed = [parse_segment(s) for s in res['segments']]
+			parsed = list(res['records'])
 			n_subs = len([s for s in subs if s is not None])
 			stage_seq: list[str] = []
 			if res['escaped']:
@@ -284,8 +290,8 @@ class C07Runner:
 			for k, (sub, p) in enumerate(zip(subs, parsed)):
 				if sub is None:
 					continue
-				if p['status'] == 'unknown' and not (res['escaped'] and k == len(parsed) - 1):
-					self.violation('submission-without-result-or-error-block', k, {'raw': p.get('raw'), 'text': sub[:200]})
+				if p['status'] == 'silent' and not (res['escaped'] and k == len(parsed) - 1):
+					self.violation('submission-without-result-or-error-block', k, {'text': sub[:200]})
 				if p['status'] == 'ok':
 					self.bump('probes', 'submission transpiled')
 					fresh = self.fresh_answer(proj, init, sub)
@@ -366,7 +372,7 @@ class C07Runner:
 			if res['escaped']:
 				_VALID_CACHE[key] = 'escaped:' + res['escaped']['cls']
 			else:
-				p = parse_segment(res['segments'][0]) if res['segments'] else {}
+				p = res['records'][0] if res['records'] else {}
 				_VALID_CACHE[key] = p.get('render_head', 'ok').split('.')[-1] if p.get('status') == 'error' else 'ok'
 		v = _VALID_CACHE[key]
 		return v
